@@ -5,7 +5,7 @@
 // Access discipline of the taproot signing-message encoder with respect to the supplied spent outputs, and its
 // totality (C10: every out-of-range index / missing prevout is an `Err`, never a panic).
 // Assumption A-hash: the SHA-256 engine is replaced by the recording model of support/c03_hash_models.rs; digests are not
-// inspected here (Ok/Err control flow and message length only).
+// inspected here (Ok/Err control flow and message length only). Assumption A-cache: see the cache models below.
 // Oracle (C13 statement + BIP-341/Elements message layout):
 //   * a hash type with ANYONECANPAY needs only the spent output of the input being signed => Prevouts::One(i, p) with
 //     i == input_index is sufficient, for ALL|ACP, NONE|ACP and SINGLE|ACP alike;
@@ -62,6 +62,22 @@ fn mk_prevout() -> TxOut {
 // |asset| + |value| + |scriptPubKey with length prefix| of mk_prevout()
 const PREVOUT_FIELDS_LEN: usize = 33 + 9 + 3;
 
+// ---- cache models (assumption A-cache, used only by the control-flow harnesses of this module) --------------------
+// The lazily computed sub-hash caches are total functions of (tx, prevouts) that return some digests; what they hash is
+// the subject of c03_message.rs / c13_cache.rs. Replacing them here keeps the Ok/Err obligation affordable (measured: the
+// ALL|ANYONECANPAY instance did not finish in 13 min / 7 GB with the real cache code, because CBMC explores the cache
+// closures on every path).
+fn any_digest() -> ShaHash { ShaHash::from_byte_array(kani::any()) }
+fn common_cache_model<'a, R: Deref<Target = Transaction>>(c: &'a mut Option<CommonCache>, _tx: &R) -> &'a CommonCache {
+    c.get_or_insert_with(|| CommonCache { prevouts: any_digest(), sequences: any_digest(), outputs: any_digest(), issuances: any_digest() })
+}
+fn taproot_cache_model<'a, R: Deref<Target = Transaction>, T: Borrow<TxOut>>(c: &'a mut Option<TaprootCache>, _tx: &R, _prevouts: &[T]) -> &'a TaprootCache {
+    c.get_or_insert_with(|| TaprootCache {
+        script_pubkeys: any_digest(), outpoint_flags: any_digest(), asset_amounts: any_digest(),
+        issuance_rangeproofs: any_digest(), output_witnesses: any_digest(),
+    })
+}
+
 struct Query {
     b: u8,
     idx: usize,
@@ -104,6 +120,8 @@ macro_rules! one_harness {
         #[kani::stub(<ShaEngine as HashEngineTrait>::input, hm::input_fold)]
         #[kani::stub(ShaHash::from_engine, hm::from_engine_fold)]
         #[kani::stub(std::io::Write::write_all, hm::WriteAllOnce::write_all_once)]
+        #[kani::stub(SighashCache::common_cache_minimal_borrow, common_cache_model)]
+        #[kani::stub(SighashCache::taproot_cache_minimal_borrow, taproot_cache_model)]
         fn $name() {
             const NIN: usize = $nin;
             const NOUT: usize = $nout;
@@ -163,6 +181,13 @@ one_harness!(taproot_one_none_needs_all, 2, 1, 0x02, false, false);
 //@ harness: taproot_one_single_needs_all class=B tier=thorough bound="2 inputs, 1 output, hash type 0x03" props=C13,C10 timeout=900
 //@ clause: same for SINGLE
 one_harness!(taproot_one_single_needs_all, 2, 1, 0x03, false, false);
+
+//@ harness: taproot_one_none_acp_1in class=B tier=quick bound="1 input, 1 output, hash type 0x82, key path, no annex; all usize indices" props=C13,C10 timeout=900
+//@ clause: as taproot_one_none_acp on a 1-input transaction
+one_harness!(taproot_one_none_acp_1in, 1, 1, 0x82, false, false);
+//@ harness: taproot_one_all_acp_1in class=B tier=quick bound="1 input, 1 output, hash type 0x81, key path, no annex; all usize indices" props=C13 timeout=900
+//@ clause: ALL|ANYONECANPAY with Prevouts::One for the signed input succeeds. EXPECTED TO FAIL on the pinned tree: DESIGN section 6, D8
+one_harness!(taproot_one_all_acp_1in, 1, 1, 0x81, false, false);
 
 //@ harness: hash_model_layout class=F tier=quick props=C13,C03
 //@ clause: (checked assumption) the engine mirror used by the hash model has the layout of bitcoin_hashes' sha256::HashEngine
